@@ -471,11 +471,10 @@ def base_canon(base):
     if base not in _base_cache:
         r = env.run(BASE[base])
         if not r.ok:
-            raise RuntimeError('base deck %s does not convert: %s' % (base, r.brief()))
-        t4 = t4read.parse(r.t4)
-        if t4.problems:
-            raise RuntimeError('base deck %s output has structural problems: %s' % (base, t4.problems[:3]))
-        _base_cache[base] = (canon(t4), r.body)
+            # the outcome of the base spelling is an error: every respelling must then fail alike
+            _base_cache[base] = (('error', r.exc_type), r.brief())
+        else:
+            _base_cache[base] = (canon(t4read.parse(r.t4)), r.body)
     return _base_cache[base]
 
 
@@ -486,6 +485,14 @@ def check_state(scn, st):
     fortran = [k for k in kinds if k in ('numD', 'numF')]
     if fortran:
         kinds = fortran        # classify by the Fortran number form when one is present
+    if isinstance(want, tuple):
+        # the base spelling does not convert
+        if not r.ok and r.exc_type == want[1]:
+            return verdict(True, st, out='err:' + r.exc_type, nontrivial=False, stats={'base_fails': 1})
+        return verdict(False, st, cls={'kind': 'base-fails-rewrite-differs', 'exc': want[1], 'rewrites': ','.join(kinds)},
+                       msg='the base spelling fails (%s) but after rewrites %s the outcome is %s\n%s'
+                       % (want_body, st.path, 'a finished conversion' if r.ok else r.brief(), st.deck_text),
+                       out=sha(r.body) if r.ok else 'err:' + r.exc_type)
     if not r.ok:
         return verdict(False, st, cls={'kind': 'exception', 'exc': r.exc_type, 'rewrites': ','.join(kinds)},
                        msg='rewrites %s: conversion failed: %s\n%s' % (st.path, r.brief(), st.deck_text),
@@ -521,6 +528,8 @@ def canaries():
 
 def finish(agg, tier):
     kinds = agg['stats'].get('rewrite_kinds', set())
+    if agg['stats'].get('base_fails', 0):
+        raise Vacuous('a base deck does not convert (%d states compared only the error)' % agg['stats']['base_fails'])
     if len(kinds) < 12:
         raise Vacuous('only rewrite kinds %s exercised' % sorted(kinds))
     return {'rewrite_kinds': sorted(kinds), 'byte_identical_states': agg['stats'].get('byte_identical', 0)}
